@@ -418,6 +418,23 @@ func runFuzzBytes() int {
 					j := k/5 + c.ID*len(degenerate)
 					sig, sigMT = degenerate[j%len(degenerate)], unusualMT[(j/len(degenerate))%len(unusualMT)]
 				}
+				if k%5 == 3 {
+					// a VALID signature (of the trusted signer) over a payload that is JSON but no sensible Notary payload: anybody who
+					// holds a key can sign such a thing (COSE carries it verbatim; for JWS the signer re-encodes it first)
+					odd := []string{`{}`, `{"targetArtifact":{}}`, `{"targetArtifact":null}`, `null`, `[]`, `"payload"`, `0`,
+						`{"targetArtifact":{"mediaType":"` + mtA + `","digest":"","size":3}}`, `{"targetArtifact":{"mediaType":"` + mtA + `","digest":"sha256","size":3}}`,
+						`{"targetArtifact":{"mediaType":"` + mtA + `","digest":"sha256:","size":3}}`, `{"targetArtifact":{"mediaType":"` + mtA + `","digest":":","size":3}}`,
+						`{"targetArtifact":{"mediaType":"` + mtA + `","digest":"nosuchalgo:00","size":3}}`,
+						`{"targetArtifact":{"mediaType":"` + mtA + `","digest":"` + string(digestOf(digest.SHA256, blobA)) + `","size":-1}}`,
+						`{"targetArtifact":{"digest":"` + string(digestOf(digest.SHA256, blobA)) + `","size":` + fmt.Sprint(len(blobA)) + `,"annotations":null}}`,
+						`{"targetArtifact":{"mediaType":"` + mtA + `","digest":"` + string(digestOf(digest.SHA256, blobA)) + `","size":` + fmt.Sprint(len(blobA)) + `,"annotations":{"":""}}}`}
+					j := k/5 + c.ID*7
+					func() {
+						defer func() { _ = recover() }() // (a payload the envelope library refuses to sign is simply not offered)
+						sig = SignEnvelope(EnvSpec{Format: format, Chain: epChain(), Payload: []byte(odd[j%len(odd)])})
+						sigMT = mediaTypeOf(format)
+					}()
+				}
 				var outcome *notation.VerificationOutcome
 				var cerr error
 				blobAPI := r.Intn(2) == 0
